@@ -13,5 +13,6 @@ CFG = dict(
     explanation="Theorems: one UpdateAccPerShare(amount) credits at most amount in total (given total committed >= sum of balances); a deposit earns nothing retroactively; "
                 "claims truncate; the solvency ledger (collect / incentive funding and crediting / claim) keeps balance >= credited-unclaimed over all histories; witnesses of the "
                 "two repaired defects. Each real block's flows must be an accepted step of that ledger; solvency is evaluated on every observed block with the claimable amount "
-                "of every holder recomputed from accumulators, balances and debts.",
+                "of every holder recomputed from accumulators, balances and debts."
+                " Reward denom list: the model of GetRewardDenoms lists every denom once (rewardDenoms_nodup), so the deposit/withdraw hooks change nothing claimable (hookOver_claimable), while a second pass over-credits by acc*x (hookPass_twice); the keeper's list is compared with the model's on every block; one history in four has USDC as an ibc/ voucher.",
 )
